@@ -22,9 +22,12 @@ struct sqlite3_stmt { int kind; long long i64[9]; double dbl[9]; Blob blob[9]; i
 
 static bool sqlIs(const char* a, const char* b) { return strcmp(a, b) == 0; }
 static void mutation() { if (!m_inTxn) m_mutationsOutsideTxn++; }
-static KeyRow* keyById(long long id) { for (int i = 0; i < 4; i++) if (m_keys[i].used && m_keys[i].id == id) return &m_keys[i]; return 0; }
-static KeyRow* keyByBlob(const Blob& k) { for (int i = 0; i < 4; i++) if (m_keys[i].used && m_keys[i].key.n == k.n && memcmp(m_keys[i].key.b, k.b, k.n) == 0) return &m_keys[i]; return 0; }
-static ResRow* resByKeyId(long long id) { for (int i = 0; i < 2; i++) if (m_res[i].used && m_res[i].key_id == id) return &m_res[i]; return 0; }
+// (rows are named by index, never by pointer difference: symex does not fold `p - base`, and a symbolic row index makes every column symbolic)
+static int keyIdxById(long long id) { for (int i = 0; i < 4; i++) if (m_keys[i].used && m_keys[i].id == id) return i; return -1; }
+static int keyIdxByBlob(const Blob& k) { for (int i = 0; i < 4; i++) if (m_keys[i].used && m_keys[i].key.n == k.n && memcmp(m_keys[i].key.b, k.b, k.n) == 0) return i; return -1; }
+static int resIdxByKeyId(long long id) { for (int i = 0; i < 2; i++) if (m_res[i].used && m_res[i].key_id == id) return i; return -1; }
+static KeyRow* keyById(long long id) { int i = keyIdxById(id); return i < 0 ? 0 : &m_keys[i]; }
+static KeyRow* keyByBlob(const Blob& k) { int i = keyIdxByBlob(k); return i < 0 ? 0 : &m_keys[i]; }
 extern "C" {
 int sqlite3_config(int, ...) { return SQLITE_OK; }
 int sqlite3_threadsafe(void) { return 1; }
@@ -94,8 +97,8 @@ int sqlite3_step(sqlite3_stmt* s) {
   case S_SEL_VERSION: return m_info.exists ? SQLITE_ROW : SQLITE_DONE;
   case S_SEL_ITER: return m_info.exists ? SQLITE_ROW : SQLITE_DONE;
   case S_UPD_ITER: mutation(); m_info.iteration = s->i64[1]; return SQLITE_DONE;
-  case S_FIND_KEYID: { KeyRow* k = keyByBlob(s->blob[1]); if (!k) return SQLITE_DONE; s->row = (int)(k - m_keys); return SQLITE_ROW; }
-  case S_FIND_KEYNAME: { KeyRow* k = keyById(s->i64[1]); if (!k) return SQLITE_DONE; s->row = (int)(k - m_keys); return SQLITE_ROW; }
+  case S_FIND_KEYID: { int k = keyIdxByBlob(s->blob[1]); if (k < 0) return SQLITE_DONE; s->row = k; return SQLITE_ROW; }
+  case S_FIND_KEYNAME: { int k = keyIdxById(s->i64[1]); if (k < 0) return SQLITE_DONE; s->row = k; return SQLITE_ROW; }
   case S_INS_KEY: { mutation(); if (keyByBlob(s->blob[1])) return SQLITE_DONE; for (int i = 0; i < 4; i++) if (!m_keys[i].used) { m_keys[i].used = true; m_keys[i].id = m_nextKeyId++; m_keys[i].key = s->blob[1]; m_lastRowid = m_keys[i].id; return SQLITE_DONE; }
                     VF_ASSERT(false, "model: key table full (outside bound)"); VF_STOP(); return SQLITE_FULL; }
   case S_INS_RESULT: {
@@ -103,13 +106,14 @@ int sqlite3_step(sqlite3_stmt* s) {
     // referential integrity of what is written: the result's key and every dependency id name a stored key
     if (!keyById(s->i64[1])) m_danglingRefs++;
     for (int k = 0; k + 8 <= s->blob[8].n; k += 8) { unsigned long long raw = 0; for (int j = 0; j < 8; j++) raw |= (unsigned long long)s->blob[8].b[k + j] << (8 * j); if (!keyById((long long)(raw >> 2))) m_danglingRefs++; }
-    ResRow* r = resByKeyId(s->i64[1]);
-    if (!r) for (int i = 0; i < 2; i++) if (!m_res[i].used) { r = &m_res[i]; break; }
-    VF_ASSERT(r != 0, "model: result table full (outside bound)"); if (!r) VF_STOP();
+    int ri = resIdxByKeyId(s->i64[1]);
+    if (ri < 0) for (int i = 0; i < 2; i++) if (!m_res[i].used) { ri = i; break; }
+    VF_ASSERT(ri >= 0, "model: result table full (outside bound)"); if (ri < 0) VF_STOP();
+    ResRow* r = &m_res[ri];
     r->used = true; r->key_id = s->i64[1]; r->value = s->blob[2]; r->signature = s->i64[3]; r->built_at = s->i64[4]; r->computed_at = s->i64[5]; r->start = s->dbl[6]; r->end = s->dbl[7]; r->deps = s->blob[8];
     return SQLITE_DONE; }
-  case S_FIND_RESULT: { KeyRow* k = keyByBlob(s->blob[1]); ResRow* r = k ? resByKeyId(k->id) : 0; if (!r) return SQLITE_DONE; s->row = (int)(r - m_res); return SQLITE_ROW; }
-  case S_FAST_FIND_RESULT: { ResRow* r = resByKeyId(s->i64[1]); if (!r) return SQLITE_DONE; s->row = (int)(r - m_res); return SQLITE_ROW; }
+  case S_FIND_RESULT: { int k = keyIdxByBlob(s->blob[1]); int r = k < 0 ? -1 : resIdxByKeyId(m_keys[k].id); if (r < 0) return SQLITE_DONE; s->row = r; return SQLITE_ROW; }
+  case S_FAST_FIND_RESULT: { int r = resIdxByKeyId(s->i64[1]); if (r < 0) return SQLITE_DONE; s->row = r; return SQLITE_ROW; }
   case S_KEYS_WITH_RESULT: { while (s->cursor < 2) { int i = s->cursor++; if (m_res[i].used && keyById(m_res[i].key_id)) { s->row = i; return SQLITE_ROW; } } return SQLITE_DONE; }
   default: VF_ASSERT(false, "model: step on an unmodelled statement (outside bound)"); VF_STOP(); return SQLITE_ERROR;
   }
